@@ -15,6 +15,6 @@ CONSTANTS
   KnownDefects <- KD123
   Log <- LogLast
 CONSTRAINT HighWater
-INVARIANTS Inv_C09_SafetyObsClean Inv_C09_GcUnexplained Inv_C10_CompleteUnexplained Inv_C10_Source
+INVARIANTS Inv_C09_SafetyObsClean Inv_C09_GcUnexplained Inv_C10_CompleteUnexplained
 POSTCONDITION Accepted
 CHECK_DEADLOCK FALSE
